@@ -6,10 +6,11 @@ further assumption about the driver, an instance of `cross_protocol_char_plain` 
 -/
 import VaxisModel.Props.C09Uni
 import VaxisModel.Driver.C09
+import VaxisModel.Spec.KeyEvent
 
 namespace VaxisModel.Props.C09Driver
 open VaxisModel.Model.Key VaxisModel.Spec.KeyEnc VaxisModel.Spec.KeyEncUni VaxisModel.Gen.Keys
-open VaxisModel.Driver.C09 (URow mkUni findRow)
+open VaxisModel.Driver.C09 (URow mkUni findRow upperHasLowerBad)
 
 theorem findRow_none (t : List URow) (r : Int) (h : r ∉ t.map (·.r)) : findRow t r = none := by
   unfold findRow
@@ -38,5 +39,34 @@ theorem cross_protocol_char_plain_driver (t : List URow) (folds : List (Int × I
     (fun r hr => (driver_uni_hdom t folds r hr).1) hok
 
 example : findRow [{ r := 97, flags := 30, up := 65, lo := 97 }] 223 = none := by decide
+
+/-- **driver_uni_upper_has_lower.** The `hypl` op: when the driver's evaluation over the rows finds no violating row, the
+    law `UpperHasLower` (hypothesis of `C09Sound.cross_protocol_char_plain_keycode`) holds of the `Uni` the driver builds
+    from those rows — for every rune, listed or not (outside the table nothing is lower-case). -/
+theorem driver_uni_upper_has_lower (t : List URow) (folds : List (Int × Int)) (h : upperHasLowerBad t = []) :
+    UpperHasLower (mkUni t folds) := by
+  intro r hl hne
+  simp only [mkUni] at hl hne ⊢
+  cases hr : findRow t r with
+  | none => simp [hr] at hl
+  | some row =>
+    simp only [hr] at hl hne ⊢
+    have hmem : row ∈ t := List.mem_of_find?_eq_some hr
+    have hrr : row.r = r := by have := List.find?_some hr; simpa using this
+    have hnot : row ∉ upperHasLowerBad t := by rw [h]; simp
+    unfold upperHasLowerBad at hnot
+    rw [List.mem_filter] at hnot
+    have hflag : (row.flags / 2 % 2 == 1) = true := hl
+    have hup : (row.up != row.r) = true := by
+      simp only [bne_iff_ne, ne_eq]; rw [hrr]; exact hne
+    cases hU : findRow t row.up with
+    | none => exact absurd ⟨hmem, by simp [hflag, hup, hU]⟩ hnot
+    | some U =>
+      have hUr : U.r = row.up := by have := List.find?_some hU; simpa using this
+      have hlo : U.lo ≠ U.r := by
+        intro heq
+        exact hnot ⟨hmem, by simp [hflag, hup, hU, heq]⟩
+      simp only []
+      rw [← hUr]; exact hlo
 
 end VaxisModel.Props.C09Driver
